@@ -1,6 +1,6 @@
 (* C12 -- property theorems only: each is closed by [exact] of a lemma proved elsewhere. *)
 From Coq Require Import List NArith.
-From Muscle Require Import Common.LE Gw.Tunnel Gw.TunnelProofs Gw.TunnelSound Gw.TunnelSender Gw.TunnelComplete Gw.TunnelTheorems.
+From Muscle Require Import Common.LE Gw.Tunnel Gw.TunnelProofs Gw.TunnelSound Gw.TunnelSender Gw.TunnelComplete Gw.TunnelTheorems Gw.TunnelMulti.
 From Muscle Require Import Gw.MiniTunnel Gw.MiniTunnelProofs Gw.MiniTunnelDrain.
 Import ListNotations.
 Local Open Scope N_scope.
@@ -16,6 +16,18 @@ Theorem C12_tunnel_sound :
     forall a s m, who a = Some s -> In (a, m) out -> In m (sr_msgs s).
 Proof. exact tunnel_sound. Qed.
 Print Assumptions C12_tunnel_sound.
+
+(* First clause with SetAllowMiscIncomingData on or off: the only extra deliveries are non-tunnel datagrams, verbatim. *)
+Theorem C12_tunnel_sound_misc :
+  forall (rc : rcfg) (who : addr -> option sender_run) (net : list (addr * packet)) t out,
+    4 <= rc_mtu rc ->
+    (forall a s, who a = Some s -> sr_ok s) ->
+    (forall a s p, who a = Some s -> In (a, p) net -> In p (sr_packets s) \/ foreign (rc_magic rc) p) ->
+    recv_all rc [] net = (t, out) ->
+    forall a s m, who a = Some s -> In (a, m) out ->
+      In m (sr_msgs s) \/ exists p, In (a, p) net /\ misc_passed rc p m.
+Proof. exact tunnel_sound_misc. Qed.
+Print Assumptions C12_tunnel_sound_misc.
 
 (* Second clause: every packet once and in order => exactly the completely written Messages that fit
    the receiver's limit, once each, in order; every MTU, every call pattern. *)
@@ -48,6 +60,33 @@ Theorem C12_tunnel_complete_drained :
 Proof. exact tunnel_complete_drained. Qed.
 Print Assumptions C12_tunnel_complete_drained.
 
+(* Several sources: with at most MAX_NUM_RECEIVE_STATES+1 source addresses in play (no LRU eviction) what
+   is delivered under address a is what would be delivered had only a's datagrams arrived -- arbitrary
+   datagrams from everybody. *)
+Theorem C12_tunnel_noninterference :
+  forall rc (L : list addr) net a,
+    N.of_nat (length L) <= MAX_STATES + 1 ->
+    (forall b p, In (b, p) net -> In b L) -> In a L ->
+    filter (from a) (snd (recv_all rc [] net)) = snd (recv_all rc [] (filter (from a) net)).
+Proof. exact tunnel_noninterference. Qed.
+Print Assumptions C12_tunnel_noninterference.
+
+(* Second clause for several senders whose in-order streams are interleaved arbitrarily. *)
+Theorem C12_tunnel_complete_multi :
+  forall rc (L : list addr) net c a id0 ops st pkts,
+    N.of_nat (length L) <= MAX_STATES + 1 ->
+    (forall b p, In (b, p) net -> In b L) -> In a L ->
+    scfg_ok c -> compat c rc -> id0 < two32 -> no_setid ops ->
+    N.of_nat (length (added ops)) <= two32 ->
+    Forall (fun m => lenN m < two32) (added ops) ->
+    srun c (s_init id0) ops = (st, pkts) -> s_pkt st = [] ->
+    filter (from a) net = map (pair a) pkts ->
+    exists done,
+      added ops = done ++ s_q st
+      /\ filter (from a) (snd (recv_all rc [] net)) = map (pair a) (filter (fits rc) done).
+Proof. exact tunnel_complete_multi. Qed.
+Print Assumptions C12_tunnel_complete_multi.
+
 (* The premise "ids distinct mod 2^32" cannot be dropped: with a repeated id a reordering network splices. *)
 Theorem C12_tunnel_wrap_refuted :
   exists net,
@@ -60,6 +99,13 @@ Print Assumptions C12_tunnel_wrap_refuted.
 Example C12_premises_satisfiable :
   sr_ok ex_run /\ sc_mtu (sr_cfg ex_run) <= rc_mtu ex_rc /\ compat ex_cfg ex_rc.
 Proof. exact ex_run_ok. Qed.
+Example C12_multi_nontrivial :
+  let p := sr_packets ex_run in
+  let net := [(5, nth 0 p []); (9, [Byte.x00; Byte.x01]); (6, nth 0 p []); (5, nth 1 p []); (6, nth 1 p []); (5, nth 2 p [])] in
+  (forall b q, In (b, q) net -> In b [5; 6; 9])
+  /\ filter (from 5) (snd (recv_all ex_rc [] net)) = [(5, repeat Byte.x41 9); (5, [])]
+  /\ filter (from 6) (snd (recv_all ex_rc [] net)) = [(6, repeat Byte.x41 9)].
+Proof. exact multi_nontrivial. Qed.
 Example C12_premises_nontrivial :
   length (sr_packets ex_run) = 8%nat
   /\ snd (recv_all ex_rc [] (map (pair 5) (sr_packets ex_run))) = [(5, repeat Byte.x41 9); (5, [])]
